@@ -39,6 +39,7 @@ let () =
   let state = ref (Model.m_init Model.Z0 []) in
   let cases = ref 0 and ops = ref 0 and mism = ref 0 and lineno = ref 0 and opidx = ref 0 in
   let case_bad = ref false and bad_cases = ref 0 in
+  let percode : (string, int) Hashtbl.t = Hashtbl.create 16 in
   (try
      while true do
        let line = input_line ic in
@@ -63,7 +64,10 @@ let () =
          if dump then Printf.printf "D case=%d op=%d model=[%s]\n" !cases !opidx (string_of_ints o');
          if o <> o' then begin
            incr mism; case_bad := true;
-           if !mism <= 50 then
+           let code = (match i with c :: _ -> BZ.to_string (bz_of_z c) | [] -> "none") in
+           let n = (try Hashtbl.find percode code with Not_found -> 0) + 1 in
+           Hashtbl.replace percode code n;
+           if n <= 6 then
              Printf.printf "MISMATCH case=%d op=%d line=%d in=[%s] model=[%s] impl=[%s]\n"
                !cases !opidx !lineno (string_of_ints i) (string_of_ints o') (string_of_ints o)
          end;
@@ -72,4 +76,5 @@ let () =
      done
    with End_of_file -> ());
   if !case_bad then incr bad_cases;
-  Printf.printf "SUMMARY cases=%d ops=%d mismatches=%d bad_cases=%d\n" !cases !ops !mism !bad_cases
+  let pc = Hashtbl.fold (fun k v acc -> (k ^ ":" ^ string_of_int v) :: acc) percode [] in
+  Printf.printf "SUMMARY cases=%d ops=%d mismatches=%d bad_cases=%d percode=%s\n" !cases !ops !mism !bad_cases (String.concat "," pc)
